@@ -36,6 +36,9 @@ pub enum ChildOut {
     Ok(RunResult),
     /// Killed by a signal / non-zero exit / wall-clock cap / unparsable output.
     Crash(String),
+    /// The run exhausted its event budget while virtual time kept advancing (a long legitimate
+    /// run): inconclusive, neither evidence nor a violation.
+    Truncated,
 }
 
 fn run_child(argv: &[String], wall_cap: Duration) -> ChildOut {
@@ -75,6 +78,7 @@ fn run_child(argv: &[String], wall_cap: Duration) -> ChildOut {
     let err = err_thread.join().unwrap_or_default();
     match status {
         None => ChildOut::Crash(format!("wall-clock cap of {:?} exceeded", wall_cap)),
+        Some(st) if st.code() == Some(4) => ChildOut::Truncated,
         Some(st) if !st.success() => ChildOut::Crash(format!("child exited with {st}: {}", err.lines().last().unwrap_or(""))),
         Some(_) => match out.lines().last().map(serde_json::from_str::<RunResult>) {
             Some(Ok(r)) => ChildOut::Ok(r),
@@ -356,6 +360,7 @@ fn minimise(check: &str, plan: &Plan, rule: &str, key: &str, jobs: usize, budget
                             let ok = match run_plan(check, p, &tag) {
                                 ChildOut::Ok(r) => same_violation(&r, rule, key).map(|v| v.rule == rule).unwrap_or(false),
                                 ChildOut::Crash(_) => rule == "CRASH.process",
+                                ChildOut::Truncated => false,
                             };
                             (*i, ok)
                         })
@@ -384,6 +389,7 @@ fn minimise(check: &str, plan: &Plan, rule: &str, key: &str, jobs: usize, budget
 struct Agg {
     runs: u64,
     crashes: u64,
+    truncated: u64,
     nontrivial_keys: HashSet<(u64, u64)>,
     sched_fps: HashSet<u64>,
     state_fps: HashSet<u64>,
@@ -446,6 +452,9 @@ pub fn batch_main(args: &[String]) -> i32 {
             let mut a = agg.lock().unwrap();
             a.runs += 1;
             match out {
+                ChildOut::Truncated => {
+                    a.truncated += 1;
+                }
                 ChildOut::Crash(msg) => {
                     a.crashes += 1;
                     a.violating_runs += 1;
@@ -513,6 +522,7 @@ pub fn batch_main(args: &[String]) -> i32 {
         let (final_v, log_hash) = match run_plan(&check, &min_plan, "final") {
             ChildOut::Ok(r) => (same_violation(&r, &v.rule, &v.key).unwrap_or(v.clone()), r.log_hash),
             ChildOut::Crash(m) => (Violation { rule: v.rule.clone(), key: v.key.clone(), detail: m }, 0),
+            ChildOut::Truncated => (v.clone(), 0),
         };
         let file = format!("{replays_dir}/{check}-{}-{}-{:x}.json", final_v.rule.replace('.', "_"), seed, fnv_str(&final_v.key) & 0xffff);
         let replay = serde_json::json!({
@@ -573,6 +583,7 @@ pub fn batch_main(args: &[String]) -> i32 {
             "distinct_state_fingerprints": a.state_fps.len(),
             "violations_of_other_properties_seen": a.other_rules,
             "process_crashes": a.crashes,
+            "runs_truncated_at_event_budget": a.truncated,
             "known_findings_hit": known_hit,
             "violation_records": violation_records,
             "real_components": ["deltio (all modules, built from /repo working tree with --cfg deltio_verif)", "tonic server stack (router, generated services, codec, status mapping)", "prost", "tokio runtime (current_thread), timers, mpsc/oneshot/Notify", "async-stream, tokio-stream merge, futures Shared"],
@@ -641,6 +652,10 @@ pub fn replay_main(args: &[String]) -> i32 {
     let key = v["key"].as_str().unwrap_or("").to_string();
     let want_hash = v["log_hash"].as_u64().unwrap_or(0);
     match run_plan_file(&check, &file) {
+        ChildOut::Truncated => {
+            println!("NOT-REPRODUCED property={check} rule={rule} replay={file} (the run ended at its event budget while virtual time kept advancing: a long run, inconclusive)");
+            0
+        }
         ChildOut::Crash(m) => {
             if rule == "CRASH.process" {
                 println!("VIOLATION property={check} replay={file}");
@@ -696,6 +711,7 @@ pub fn determinism_main(args: &[String]) -> i32 {
                         let entry = match r {
                             ChildOut::Ok(r) => (r.log_hash, r.sched_fp, r.claimed.iter().map(|v| format!("{}|{}", v.rule, v.key)).collect()),
                             ChildOut::Crash(m) => (0, 0, vec![m]),
+                            ChildOut::Truncated => (1, 1, vec!["truncated".to_string()]),
                         };
                         out.lock().unwrap().insert(seed, entry);
                     });
